@@ -114,3 +114,37 @@ def correspondence(ctx):
                              region=_region(name, s, o[0]), spec="valid iff constructible; InvalidVersion; round trip")
         if name == "pypi":
             ctx.sample({"scheme": name, "text": "1.0rc1", "oracle": "no violation" if oracle(name, "1.0rc1") is None else "violation"})
+    if ctx.thorough:
+        search(ctx)
+
+
+PUNCT = list(":;,!@#%&*()=[]{}<>/?\\|'\"` $^~_+-.") + list("0aZ")
+
+
+def search(ctx):
+    """a proof obligation or the correspondence broke without a failing input among the grammar / respelling /
+    mutation streams: put grammar strings with characters from a wide alphabet inserted (what a changed validity
+    pattern or character table may newly admit) to the property's oracle"""
+    n = 4000
+    for name in A.ALL:
+        rng = ctx.rng("c11-search", name)
+        stream = "search:" + name
+        for _ in range(n):
+            try:
+                s = S.GEN[name](rng)
+            except Exception:  # noqa: BLE001
+                continue
+            for _k in range(rng.choice([1, 1, 2, 3])):
+                i = rng.randint(0, len(s))
+                s = s[:i] + rng.choice(PUNCT) + s[i:]
+            if rng.random() < 0.2:
+                s = rng.choice(["0:", "1:", "v", "00:"]) + s
+            o = oracle(name, s)
+            ctx.count(stream, key=s, nontrivial=True)
+            if o:
+                ctx.disagree(stream, "oracle %s" % name, o[1], "-", True, {"scheme": name, "text": s, "clause": o[1]},
+                             region=_region(name, s, o[0]), spec="valid iff constructible; InvalidVersion; round trip")
+                if ctx.rep.violations:
+                    break
+        if ctx.rep.violations:
+            return
